@@ -343,6 +343,8 @@ def gen_expr(rng: random.Random, depth: int, feats: set, names: list[str], tagn=
 
 def gen_grammar(rng: random.Random, feats: set):
     names = ["r0", "r1", "r2"] + (["r3"] if rng.random() < 0.3 else [])
+    if ("ws" in feats or "cm" in feats) and rng.random() < 0.06:
+        names.append("SKIP")              # a grammar rule that merely happens to be called SKIP
     mods = ["", "", "_"] + (["@", "$", "!", "@", "!"] if "mods" in feats else [])
     for _ in range(300):
         rules = {}
@@ -373,6 +375,8 @@ def alphabet(feats: set) -> str:
         a += "#/"
     if "ci" in feats or "builtin" in feats:
         a += "BA1f"
+    if "builtin" in feats:
+        a += "\u00e9\U0001F600"          # non-ASCII and astral characters: ANY and position arithmetic
     return a
 
 
